@@ -161,6 +161,9 @@ class Check(common.Check):
             x = Fraction(int(x))
         elif approx:
             x = Fraction(float(x) + rng.uniform(-0.01, 0.01))
+        elif near and q > 0 and rng.random() < 0.12:
+            # exact ties: half way above an even / an odd multiple (pinned: the tie goes up)
+            x = q * rng.randint(-9, 9) + q / 2
         elif near and q > 0 and rng.random() < 0.25:
             # a hair beside a multiple of the quantum: one ulp, or 1e-10 quanta (as binary64 values)
             import math
@@ -718,6 +721,8 @@ class Check(common.Check):
                 return bad('multiple', f'not a multiple of the quantum {float(q)}')
             if name == 'round' and not abs(r - x) <= q / 2 + tol:
                 return bad('side', f'not a nearest multiple (|r-x| = {float(abs(r - x))} > quant/2)')
+            if name == 'round' and not approx and (x / q - Fraction(1, 2)).denominator == 1 and r != x + q / 2:
+                return bad('tie', f'a tie goes to the multiple above ({float(x + q / 2)}), as in sclang')
             if name == 'roundup' and not (-tol <= r - x < q + tol):
                 return bad('side', 'not the least multiple ≥ x')
             if name == 'trunc' and not (-tol <= x - r < q + tol):
